@@ -116,10 +116,50 @@ def _targets(n: ast.AST) -> list[ast.AST]:
     return []
 
 
+_LOWER_CACHE: dict = {}
+
+
+def _helper_lower(c: Ctx, h: Func) -> dict[str, int]:
+    """param -> k such that every value the helper returns is >= param + k (a scanner that only moves forward returns a position
+    at or after the one it was given).  Derived: the helper is analysed with a ghost copy of each integer parameter."""
+    if h in _LOWER_CACHE:
+        return _LOWER_CACHE[h]
+    _LOWER_CACHE[h] = {}
+    params = [a.arg for a in h.node.args.posonlyargs + h.node.args.args]
+    entry = Facts()
+    for pn in params:
+        entry.add_eq(f"ghostp_{pn}", pn, 0)
+    cfg = c.cfg(h)
+    res = solve(cfg, FactsProblem(cfg, entry, c.eff.call_kills(h), c.bool_summary))
+    rets = [n for n in cfg.nodes if n.kind == "stmt" and isinstance(n.ast, ast.Return) and res.get(n.id) is not None]
+    out: dict[str, int] = {}
+    if rets and all(n.ast.value is not None for n in rets) and not any(
+            not (p.kind == "stmt" and isinstance(p.ast, (ast.Return, ast.Raise))) for (p, l_) in cfg.exit.pred if res.get(p.id) is not None and l_ != "exc"):
+        for pn in params:
+            ks = []
+            for n in rets:
+                l = lin(n.ast.value)
+                if l is None:
+                    ks = None
+                    break
+                z = res[n.id]
+                z.close()
+                k = 0 if T(l[0]) == f"ghostp_{pn}" else z.d.get((f"ghostp_{pn}", T(l[0])))
+                if k is None:
+                    ks = None
+                    break
+                ks.append(-k + l[1])          # ret = term + off >= ghost - k + off
+            if ks:
+                out[pn] = min(ks)
+    _LOWER_CACHE[h] = out
+    return out
+
+
 class _GhostProblem(FactsProblem):
-    def __init__(self, cfg: CFG, kills, ghosts: dict[int, list[tuple[str, str]]]) -> None:
+    def __init__(self, cfg: CFG, kills, ghosts: dict[int, list[tuple[str, str]]], c: Ctx | None = None) -> None:
         super().__init__(cfg, None, kills, None, None, self._rb)
         self.ghosts = ghosts          # id(join node) -> [(ghost term, variant term)]
+        self.c = c
 
     @staticmethod
     def _rb(call: ast.Call, z: Facts):
@@ -148,7 +188,25 @@ class _GhostProblem(FactsProblem):
         return z
 
     def transfer_stmt(self, z: Facts, s: ast.AST) -> None:
+        lows: list[tuple[str, int]] = []
+        if self.c is not None and isinstance(s, ast.Assign) and len(s.targets) == 1 and isinstance(s.targets[0], ast.Name) and isinstance(s.value, ast.Call):
+            cs = self.c.cg.site_of.get(s.value)
+            if cs is not None and len(cs.callees) == 1 and cs.kind in ("direct", "method"):
+                h = cs.callees[0]
+                for pn, k in _helper_lower(self.c, h).items():
+                    a = self.c.eff.arg_for_param(cs, h, pn)
+                    la = lin(a) if a is not None else None
+                    if la is not None and la[0] is not None and la[0] != s.targets[0].id:
+                        lows.append((la[0], la[1] + k))
+                    elif la is not None and la[0] == s.targets[0].id:
+                        # x = h(x + c): the new x is >= old x + c + k: a shift-like lower bound, expressed through every ghost
+                        z.close()
+                        for (t1, t2), kk in list(z.d.items()):
+                            if t2 == la[0] and t1 != la[0]:
+                                lows.append((t1, -kk + la[1] + k) if False else (t1, la[1] + k - kk))
         super().transfer_stmt(z, s)
+        for (t, k) in lows:
+            z.add(t, s.targets[0].id, -k)          # t + k <= x
         # x = S.index(sub, lo[, hi]): found at or after lo (otherwise ValueError)
         if isinstance(s, ast.Assign) and len(s.targets) == 1 and isinstance(s.targets[0], ast.Name) and isinstance(s.value, ast.Call) \
                 and isinstance(s.value.func, ast.Attribute) and s.value.func.attr == "index" and len(s.value.args) >= 2:
@@ -172,7 +230,7 @@ def _contract_calls(c: Ctx, f: Func, loop: ast.While) -> list[tuple[ast.Call, st
     while changed:
         changed = False
         for g in c.p.all_funcs():
-            if g not in via and g.name in ("skipToken", "parseLinkLabel", "tokenize") and any(
+            if g not in via and (g.name in ("skipToken", "parseLinkLabel", "tokenize") or (g.module is f.module and g.name.startswith("_"))) and any(
                     h in via for cs in c.cg.sites.get(g, []) for h in cs.callees if cs.kind in ("method", "direct")):
                 via.add(g)
                 changed = True
@@ -211,7 +269,7 @@ def rule_loopvar(c: Ctx) -> RuleResult:
             cs_ = _candidates(f, loop)
             cands[h.id] = cs_
             ghosts[h.id] = [(f"ghost_{i}_{j}", v) for j, (v, _) in enumerate(cs_)]
-        prob = _GhostProblem(cfg, c.eff.call_kills(f), ghosts)
+        prob = _GhostProblem(cfg, c.eff.call_kills(f), ghosts, c)
         res = solve(cfg, prob)
         r.paths += min(cfg.paths_count(), 10**6)
         for i, loop in enumerate(loops):
@@ -290,6 +348,7 @@ def rule_loopvar(c: Ctx) -> RuleResult:
                             blocked |= {n.id for n in cfg.nodes if n.kind == "test" and n.ast is not None and id(n.ast) in {id(y) for y in ast.walk(q.test)}}
                         q = f.module.parents.get(q)
                 if f.module.rel == "rules_block/list.py":
+                    # (the store may sit in the helper that tokenizes the item: that call is a contract call already)
                     # the item loop steps over an empty item by moving the block cursor itself (state.line + 2, clamped to endLine,
                     # which the next test leaves through); rule LINECAP bounds that store
                     blocked |= {n.id for n in cfg.nodes if n.kind == "stmt" and isinstance(n.ast, ast.Assign) and id(n.ast) in ins
@@ -309,7 +368,7 @@ def rule_loopvar(c: Ctx) -> RuleResult:
             if why:
                 # the dispatcher's own fallback: where the match flag is false, the cursor is stepped explicitly
                 flags = {U(n.targets[0]) for n in ast.walk(loop) if isinstance(n, ast.Assign) and len(n.targets) == 1
-                         and isinstance(n.targets[0], ast.Name) and any(n.value is call for (call, _) in cc)}
+                         and isinstance(n.targets[0], ast.Name) and any(n.value is call for (call, why_) in cc if why_ == "the body dispatches rules")}
                 in_for: set[int] = set()
                 for (call, _) in cc:
                     q = f.module.parents.get(call)
